@@ -67,7 +67,7 @@ func writeEvidence(pc *ParentCtx, wall float64, newViolations, knownSeen int, in
 		"violations":  newViolations,
 	}
 	b, _ := json.MarshalIndent(ev, "", " ")
-	dir := filepath.Join(pc.VerifDir, "evidence")
+	dir := filepath.Join(pc.OutDir, "evidence")
 	os.MkdirAll(dir, 0755)
 	os.WriteFile(filepath.Join(dir, pc.Prop.ID+".json"), append(b, '\n'), 0644)
 }
